@@ -21,7 +21,7 @@ RULE = ("world = edit script over 1-4 files (.rs and other, nested directories, 
         "faults = short reads / EINTR on stdin (two chunkings per world), child exit status / signal / spawn ENOENT, hash "
         "seed. distinct_nontrivial = distinct (op,path,result) signatures of runs that spawned a child.")
 ASSUMPTIONS = [
-    "every path in the diff has at least N components to strip (fewer is outside the property)",
+    "a path with fewer components than -p strips matches nothing and contributes nothing (generated since F26)",
     "paths contain no spaces (excluded by the property)",
 ]
 COMPONENTS = {
@@ -93,7 +93,7 @@ def generate(rng, tier):
     nfiles = rng.range(1, 4)
     names = rng.sample(["src/lib.rs", "src/main.rs", "src/a/mod.rs", "src/a/deep/x.rs", "README.md", "build.rs", "src/data.txt",
                         "tests/t.rs", "src/gen.rs.in", "Cargo.toml"], nfiles)
-    flt = rng.choice([None, None, r".*\.rs", r"src/.*\.rs", r".*", r".*\.(rs|toml)"])
+    flt = rng.choice([None, None, r".*\.rs", r"src/.*\.rs", r".*", r".*\.(rs|toml)", r"src/.*\.rs|tests/.*\.rs", r"build\.rs|src/lib\.rs"])
     eff_filter = flt or r".*\.rs"
     lines = []
     expected = []  # (file, lo, hi)
@@ -118,10 +118,18 @@ def generate(rng, tier):
         ts = "\t2026-01-01 00:00:00.000000000 +0000" if rng.chance(20) else ""
         lines.append("--- " + ("/dev/null" if old is None else prefix_a + name) + ts)
         post = "/dev/null" if new is None else prefix_b + new_name
+        short = False
+        if new is not None and p >= 1 and "/" not in new_name and not abs_style and rng.chance(35):
+            # a path with fewer components than -p asks to strip: nothing can be stripped, the file matches nothing
+            # and its hunks belong to nobody (least of all to the file before it)
+            post = "/".join(prefix_b.split("/")[: p - 1] + [new_name])
+            short = True
         lines.append("+++ " + post + ts)
         stripped = new_name if new is not None else None
         if abs_style and p == 0 and new is not None:
             stripped = "/" + new_name
+        if short:
+            stripped = None
         if new is None:
             # what the tool sees after stripping p components of /dev/null -- never matches a sensible filter
             stripped = None
